@@ -10,6 +10,7 @@ import (
 	"encoding/json"
 	"fmt"
 	"math/big"
+	"sync"
 	"time"
 
 	dsig "github.com/russellhaering/goxmldsig"
@@ -100,6 +101,33 @@ func Store(refs []CertRef) *dsig.MemoryX509CertificateStore {
 		s.Roots = append(s.Roots, r.X509())
 	}
 	return s
+}
+
+// DynStore is an IdP certificate store that is not a MemoryX509CertificateStore: its answer can be changed in
+// place (metadata refresh) and it can fail (metadata endpoint down). Every answer is a fresh slice.
+type DynStore struct {
+	mu    sync.Mutex
+	certs []*x509.Certificate
+	err   error
+	Calls int
+}
+
+func NewDynStore(refs []CertRef) *DynStore { d := &DynStore{}; d.Set(refs, nil); return d }
+
+func (d *DynStore) Set(refs []CertRef, err error) {
+	d.mu.Lock()
+	defer d.mu.Unlock()
+	d.certs, d.err = append([]*x509.Certificate(nil), Store(refs).Roots...), err
+}
+
+func (d *DynStore) Certificates() ([]*x509.Certificate, error) {
+	d.mu.Lock()
+	defer d.mu.Unlock()
+	d.Calls++
+	if d.err != nil {
+		return nil, d.err
+	}
+	return append([]*x509.Certificate(nil), d.certs...), nil
 }
 
 // TLSStore returns the key as a dsig.TLSCertKeyStore (RSA keys only make sense here).
